@@ -424,7 +424,8 @@ class MergeStats(_Inferral):
 
 class ExpandFactory(StrategyFactory[WC]):
     """mode 0: yields strategies; 1: yields ready rules; 2: additionally the Expand rule
-    of the class whose prefix is one letter shorter (a rule whose parent is another class)."""
+    of the class whose prefix is one letter shorter (a rule whose parent is another class);
+    3: yields a lazily built rule whose children are computed on demand."""
 
     def __init__(self, mode=0, drop=False, plus=False):
         self.mode, self.drop, self.plus = int(mode), bool(drop), bool(plus)
@@ -433,6 +434,14 @@ class ExpandFactory(StrategyFactory[WC]):
         strat = Expand(drop=self.drop, plus=self.plus)
         if self.mode == 0:
             yield strat
+            return
+        if self.mode == 3:
+            # a lazily built rule: whether the strategy applies is only found out when the
+            # searcher asks for the children (StrategyDoesNotApply)
+            from comb_spec_searcher.strategies.rule import Rule
+
+            yield Rule(strat, c)
+            yield Rule(RemoveFront(drop=self.drop), c)  # applies only to some classes
             return
         try:
             yield strat(c)
